@@ -103,6 +103,10 @@ class Gen:
             m = r.random()
             if m < common_bias:
                 t = r.choice(self.COMMON9)
+            elif m < common_bias + 0.25:
+                # kind-uniform: rare kinds (signed, float, the four duration units, MAC, ...) get their share
+                kinds_here = sorted(k for k in self.bykind[proto] if unknown or k != "Unknown")
+                t = r.choice(self.bykind[proto][r.choice(kinds_here)])
             elif m < 0.9 or not unknown:
                 t = r.choice(pool)
                 if not unknown:
@@ -320,7 +324,10 @@ def conformant_session(g, npk=8, unknown=True, multi_tmpl=True, parsers=("A", "B
         pend[p].append(pk)
         # flush: one call per packet, or several packets chained into one buffer
         if not chain or r.random() < 0.6 or len(pend[p]) >= 3:
-            ops.append(call(p, [x for k in pend[p] for x in k]))
+            o = call(p, [x for k in pend[p] for x in k])
+            if chain and r.random() < 0.08:
+                o["op"] = "flat"      # parse_bytes_as_netflow_common_flowsets instead of parse_bytes (C13)
+            ops.append(o)
             pend[p] = []
     for p in parsers:
         if pend[p]:
@@ -617,3 +624,27 @@ def floats_session(g):
         recs += r.choice(specials) + r.choice([[255] * 16, [0] * 15 + [1], g.rbytes(16)]) + r.choice(specials)
     msg = g.ix_msg([g.set_(2, tm), g.set_(256, recs)])
     return ops_reset(("A",)) + [call("A", msg)]
+
+
+def struct_session(g, tier):
+    """C08 second half: V5/V7 structures built field by field (count = number of records)"""
+    r = g.r
+    ops = ops_reset(("A",))
+    L5h = [("sys_up_time", 4), ("unix_secs", 4), ("unix_nsecs", 4), ("flow_sequence", 4), ("engine_type", 1), ("engine_id", 1), ("sampling_interval", 2)]
+    L7h = [("sys_up_time", 4), ("unix_secs", 4), ("unix_nsecs", 4), ("flow_sequence", 4), ("reserved", 4)]
+    L5r = [("src_addr", 4), ("dst_addr", 4), ("next_hop", 4), ("input", 2), ("output", 2), ("d_pkts", 4), ("d_octets", 4), ("first", 4), ("last", 4),
+           ("src_port", 2), ("dst_port", 2), ("pad1", 1), ("tcp_flags", 1), ("protocol_number", 1), ("tos", 1), ("src_as", 2), ("dst_as", 2),
+           ("src_mask", 1), ("dst_mask", 1), ("pad2", 2)]
+    L7r = [("src_addr", 4), ("dst_addr", 4), ("next_hop", 4), ("input", 2), ("output", 2), ("d_pkts", 4), ("d_octets", 4), ("first", 4), ("last", 4),
+           ("src_port", 2), ("dst_port", 2), ("flags_fields_valid", 1), ("tcp_flags", 1), ("protocol_number", 1), ("tos", 1), ("src_as", 2),
+           ("dst_as", 2), ("src_mask", 1), ("dst_mask", 1), ("flags_fields_invalid", 2), ("router_src", 4)]
+    counts = [0, 1, 2, 30, 31, 64] if tier == "quick" else [0, 1, 2, 29, 30, 31, 32, 64, 200, 1259, 1364]
+    for ver, hl, rl in ((5, L5h, L5r), (7, L7h, L7r)):
+        for c in counts:
+            if ver == 7 and c > 1259:
+                continue
+            hdr = {n: g.rbytes(w) for n, w in hl}
+            hdr["count"] = c
+            recs = [{n: g.rbytes(w) for n, w in rl} for _ in range(c)]
+            ops.append({"op": "struct", "v": ver, "hdr": hdr, "recs": recs})
+    return ops
